@@ -106,4 +106,9 @@ def main(argv):
 
 
 if __name__ == "__main__":
+    import signal
+    try:
+        signal.signal(signal.SIGPIPE, signal.SIG_DFL)
+    except (AttributeError, ValueError):
+        pass
     sys.exit(main(sys.argv[1:]))
